@@ -4,7 +4,8 @@ objective-function invocation of the run.
 
 * `counter_exact_sound`: soundness of the `counterExact` analysis for EVERY execution of the abstract
   interpreter `runC` (all condition outcomes, iteration counts, population sizes, failure points).
-* `<template>_v<i>_counter_exact`: the kernel evaluates the analysis on the component tree the real
+* `<template>_v<i>_counter_exact`: the kernel evaluates the analysis (`counterExactTop`: a counter exists at the root and no
+  scope shadows it) on the component tree the real
   constructor built in this run (`Generated/Templates.lean`). For the two iterated-local-search
   templates the answer is `false` — their scoped local search brings its own `PopulationEvaluator`,
   whose `init` inserts a shadowing `Evaluations(0)` — and `ils_counter_violates` exhibits a concrete
@@ -15,13 +16,15 @@ import MahfModel.Generated.Templates
 namespace MahfModel.Props.C06.Templates
 open MahfModel.Tpl MahfModel.Generated
 
-/-- If no scope shadows the counter, a run that ends reports exactly the number of objective calls. -/
+/-- If the root state gets a counter and no scope shadows it, a run that ends reports exactly the number
+of objective calls it made. -/
 theorem counter_exact_sound (o : COracle) (fuel : Nat) (c : Comp) (s' : CSt)
-    (hc : counterExact c = true) (hi : insertsOutside c = true) (h : runC o fuel c = some s') :
+    (hc : counterExactTop c = true) (h : runC o fuel c = some s') :
     visible s'.counters = some s'.calls := by
+  simp only [counterExactTop, Bool.and_eq_true] at hc
   unfold runC at h
-  simp only [hi, if_true] at h
-  obtain ⟨d, h1, h2⟩ := execC_sound o fuel c _ s' hc h
+  simp only [hc.1, if_true] at h
+  obtain ⟨d, h1, h2⟩ := execC_sound o fuel c _ s' hc.2 h
   simp at h1
   simp [h2, h1, bumpFirst, visible]
 
@@ -44,94 +47,94 @@ theorem ils_counter_violates :
       (fun s => decide (visible s.counters = some s.calls)) = some false := by decide
 
 /-! Non-vacuity -/
-example : counterExact real_ga_v0 = true ∧ insertsOutside real_ga_v0 = true := by decide
+example : counterExactTop real_ga_v0 = true := by decide
 example : (runC ⟨fun t => t < 30, fun _ => false, fun t => t % 5⟩ 300 real_ga_v0).map
     (fun s => decide (visible s.counters = some s.calls)) = some true := by decide
 
 /-! ### Per-template obligations on the regenerated trees -/
-theorem real_ga_v0_counter_exact : counterExact real_ga_v0 = true := by decide
-theorem real_ga_v1_counter_exact : counterExact real_ga_v1 = true := by decide
-theorem real_ga_v2_counter_exact : counterExact real_ga_v2 = true := by decide
-theorem real_ga_v3_counter_exact : counterExact real_ga_v3 = true := by decide
-theorem binary_ga_v0_counter_exact : counterExact binary_ga_v0 = true := by decide
-theorem binary_ga_v1_counter_exact : counterExact binary_ga_v1 = true := by decide
-theorem binary_ga_v2_counter_exact : counterExact binary_ga_v2 = true := by decide
-theorem binary_ga_v3_counter_exact : counterExact binary_ga_v3 = true := by decide
-theorem real_es_v0_counter_exact : counterExact real_es_v0 = true := by decide
-theorem real_es_v1_counter_exact : counterExact real_es_v1 = true := by decide
-theorem real_es_v2_counter_exact : counterExact real_es_v2 = true := by decide
-theorem real_es_v3_counter_exact : counterExact real_es_v3 = true := by decide
-theorem real_de_v0_counter_exact : counterExact real_de_v0 = true := by decide
-theorem real_de_v1_counter_exact : counterExact real_de_v1 = true := by decide
-theorem real_de_v2_counter_exact : counterExact real_de_v2 = true := by decide
-theorem real_de_v3_counter_exact : counterExact real_de_v3 = true := by decide
-theorem real_pso_v0_counter_exact : counterExact real_pso_v0 = true := by decide
-theorem real_pso_v1_counter_exact : counterExact real_pso_v1 = true := by decide
-theorem real_pso_v2_counter_exact : counterExact real_pso_v2 = true := by decide
-theorem real_pso_v3_counter_exact : counterExact real_pso_v3 = true := by decide
-theorem real_sa_v0_counter_exact : counterExact real_sa_v0 = true := by decide
-theorem real_sa_v1_counter_exact : counterExact real_sa_v1 = true := by decide
-theorem real_sa_v2_counter_exact : counterExact real_sa_v2 = true := by decide
-theorem real_sa_v3_counter_exact : counterExact real_sa_v3 = true := by decide
-theorem permutation_sa_v0_counter_exact : counterExact permutation_sa_v0 = true := by decide
-theorem permutation_sa_v1_counter_exact : counterExact permutation_sa_v1 = true := by decide
-theorem permutation_sa_v2_counter_exact : counterExact permutation_sa_v2 = true := by decide
-theorem permutation_sa_v3_counter_exact : counterExact permutation_sa_v3 = true := by decide
-theorem real_ls_v0_counter_exact : counterExact real_ls_v0 = true := by decide
-theorem real_ls_v1_counter_exact : counterExact real_ls_v1 = true := by decide
-theorem real_ls_v2_counter_exact : counterExact real_ls_v2 = true := by decide
-theorem real_ls_v3_counter_exact : counterExact real_ls_v3 = true := by decide
-theorem permutation_ls_v0_counter_exact : counterExact permutation_ls_v0 = true := by decide
-theorem permutation_ls_v1_counter_exact : counterExact permutation_ls_v1 = true := by decide
-theorem permutation_ls_v2_counter_exact : counterExact permutation_ls_v2 = true := by decide
-theorem permutation_ls_v3_counter_exact : counterExact permutation_ls_v3 = true := by decide
-theorem real_ils_v0_counter_exact : counterExact real_ils_v0 = false := by decide
-theorem real_ils_v1_counter_exact : counterExact real_ils_v1 = false := by decide
-theorem real_ils_v2_counter_exact : counterExact real_ils_v2 = false := by decide
-theorem real_ils_v3_counter_exact : counterExact real_ils_v3 = false := by decide
-theorem permutation_ils_v0_counter_exact : counterExact permutation_ils_v0 = false := by decide
-theorem permutation_ils_v1_counter_exact : counterExact permutation_ils_v1 = false := by decide
-theorem permutation_ils_v2_counter_exact : counterExact permutation_ils_v2 = false := by decide
-theorem permutation_ils_v3_counter_exact : counterExact permutation_ils_v3 = false := by decide
-theorem real_rs_v0_counter_exact : counterExact real_rs_v0 = true := by decide
-theorem real_rs_v1_counter_exact : counterExact real_rs_v1 = true := by decide
-theorem real_rs_v2_counter_exact : counterExact real_rs_v2 = true := by decide
-theorem real_rs_v3_counter_exact : counterExact real_rs_v3 = true := by decide
-theorem permutation_rs_v0_counter_exact : counterExact permutation_rs_v0 = true := by decide
-theorem permutation_rs_v1_counter_exact : counterExact permutation_rs_v1 = true := by decide
-theorem permutation_rs_v2_counter_exact : counterExact permutation_rs_v2 = true := by decide
-theorem permutation_rs_v3_counter_exact : counterExact permutation_rs_v3 = true := by decide
-theorem real_rw_v0_counter_exact : counterExact real_rw_v0 = true := by decide
-theorem real_rw_v1_counter_exact : counterExact real_rw_v1 = true := by decide
-theorem real_rw_v2_counter_exact : counterExact real_rw_v2 = true := by decide
-theorem real_rw_v3_counter_exact : counterExact real_rw_v3 = true := by decide
-theorem permutation_rw_v0_counter_exact : counterExact permutation_rw_v0 = true := by decide
-theorem permutation_rw_v1_counter_exact : counterExact permutation_rw_v1 = true := by decide
-theorem permutation_rw_v2_counter_exact : counterExact permutation_rw_v2 = true := by decide
-theorem permutation_rw_v3_counter_exact : counterExact permutation_rw_v3 = true := by decide
-theorem real_iwo_v0_counter_exact : counterExact real_iwo_v0 = true := by decide
-theorem real_iwo_v1_counter_exact : counterExact real_iwo_v1 = true := by decide
-theorem real_iwo_v2_counter_exact : counterExact real_iwo_v2 = true := by decide
-theorem real_iwo_v3_counter_exact : counterExact real_iwo_v3 = true := by decide
-theorem real_fa_v0_counter_exact : counterExact real_fa_v0 = true := by decide
-theorem real_fa_v1_counter_exact : counterExact real_fa_v1 = true := by decide
-theorem real_fa_v2_counter_exact : counterExact real_fa_v2 = true := by decide
-theorem real_fa_v3_counter_exact : counterExact real_fa_v3 = true := by decide
-theorem real_bh_v0_counter_exact : counterExact real_bh_v0 = true := by decide
-theorem real_bh_v1_counter_exact : counterExact real_bh_v1 = true := by decide
-theorem real_bh_v2_counter_exact : counterExact real_bh_v2 = true := by decide
-theorem real_bh_v3_counter_exact : counterExact real_bh_v3 = true := by decide
-theorem real_cro_v0_counter_exact : counterExact real_cro_v0 = true := by decide
-theorem real_cro_v1_counter_exact : counterExact real_cro_v1 = true := by decide
-theorem real_cro_v2_counter_exact : counterExact real_cro_v2 = true := by decide
-theorem real_cro_v3_counter_exact : counterExact real_cro_v3 = true := by decide
-theorem ant_system_v0_counter_exact : counterExact ant_system_v0 = true := by decide
-theorem ant_system_v1_counter_exact : counterExact ant_system_v1 = true := by decide
-theorem ant_system_v2_counter_exact : counterExact ant_system_v2 = true := by decide
-theorem ant_system_v3_counter_exact : counterExact ant_system_v3 = true := by decide
-theorem max_min_ant_system_v0_counter_exact : counterExact max_min_ant_system_v0 = true := by decide
-theorem max_min_ant_system_v1_counter_exact : counterExact max_min_ant_system_v1 = true := by decide
-theorem max_min_ant_system_v2_counter_exact : counterExact max_min_ant_system_v2 = true := by decide
-theorem max_min_ant_system_v3_counter_exact : counterExact max_min_ant_system_v3 = true := by decide
+theorem real_ga_v0_counter_exact : counterExactTop real_ga_v0 = true := by decide
+theorem real_ga_v1_counter_exact : counterExactTop real_ga_v1 = true := by decide
+theorem real_ga_v2_counter_exact : counterExactTop real_ga_v2 = true := by decide
+theorem real_ga_v3_counter_exact : counterExactTop real_ga_v3 = true := by decide
+theorem binary_ga_v0_counter_exact : counterExactTop binary_ga_v0 = true := by decide
+theorem binary_ga_v1_counter_exact : counterExactTop binary_ga_v1 = true := by decide
+theorem binary_ga_v2_counter_exact : counterExactTop binary_ga_v2 = true := by decide
+theorem binary_ga_v3_counter_exact : counterExactTop binary_ga_v3 = true := by decide
+theorem real_es_v0_counter_exact : counterExactTop real_es_v0 = true := by decide
+theorem real_es_v1_counter_exact : counterExactTop real_es_v1 = true := by decide
+theorem real_es_v2_counter_exact : counterExactTop real_es_v2 = true := by decide
+theorem real_es_v3_counter_exact : counterExactTop real_es_v3 = true := by decide
+theorem real_de_v0_counter_exact : counterExactTop real_de_v0 = true := by decide
+theorem real_de_v1_counter_exact : counterExactTop real_de_v1 = true := by decide
+theorem real_de_v2_counter_exact : counterExactTop real_de_v2 = true := by decide
+theorem real_de_v3_counter_exact : counterExactTop real_de_v3 = true := by decide
+theorem real_pso_v0_counter_exact : counterExactTop real_pso_v0 = true := by decide
+theorem real_pso_v1_counter_exact : counterExactTop real_pso_v1 = true := by decide
+theorem real_pso_v2_counter_exact : counterExactTop real_pso_v2 = true := by decide
+theorem real_pso_v3_counter_exact : counterExactTop real_pso_v3 = true := by decide
+theorem real_sa_v0_counter_exact : counterExactTop real_sa_v0 = true := by decide
+theorem real_sa_v1_counter_exact : counterExactTop real_sa_v1 = true := by decide
+theorem real_sa_v2_counter_exact : counterExactTop real_sa_v2 = true := by decide
+theorem real_sa_v3_counter_exact : counterExactTop real_sa_v3 = true := by decide
+theorem permutation_sa_v0_counter_exact : counterExactTop permutation_sa_v0 = true := by decide
+theorem permutation_sa_v1_counter_exact : counterExactTop permutation_sa_v1 = true := by decide
+theorem permutation_sa_v2_counter_exact : counterExactTop permutation_sa_v2 = true := by decide
+theorem permutation_sa_v3_counter_exact : counterExactTop permutation_sa_v3 = true := by decide
+theorem real_ls_v0_counter_exact : counterExactTop real_ls_v0 = true := by decide
+theorem real_ls_v1_counter_exact : counterExactTop real_ls_v1 = true := by decide
+theorem real_ls_v2_counter_exact : counterExactTop real_ls_v2 = true := by decide
+theorem real_ls_v3_counter_exact : counterExactTop real_ls_v3 = true := by decide
+theorem permutation_ls_v0_counter_exact : counterExactTop permutation_ls_v0 = true := by decide
+theorem permutation_ls_v1_counter_exact : counterExactTop permutation_ls_v1 = true := by decide
+theorem permutation_ls_v2_counter_exact : counterExactTop permutation_ls_v2 = true := by decide
+theorem permutation_ls_v3_counter_exact : counterExactTop permutation_ls_v3 = true := by decide
+theorem real_ils_v0_counter_exact : counterExactTop real_ils_v0 = false := by decide
+theorem real_ils_v1_counter_exact : counterExactTop real_ils_v1 = false := by decide
+theorem real_ils_v2_counter_exact : counterExactTop real_ils_v2 = false := by decide
+theorem real_ils_v3_counter_exact : counterExactTop real_ils_v3 = false := by decide
+theorem permutation_ils_v0_counter_exact : counterExactTop permutation_ils_v0 = false := by decide
+theorem permutation_ils_v1_counter_exact : counterExactTop permutation_ils_v1 = false := by decide
+theorem permutation_ils_v2_counter_exact : counterExactTop permutation_ils_v2 = false := by decide
+theorem permutation_ils_v3_counter_exact : counterExactTop permutation_ils_v3 = false := by decide
+theorem real_rs_v0_counter_exact : counterExactTop real_rs_v0 = true := by decide
+theorem real_rs_v1_counter_exact : counterExactTop real_rs_v1 = true := by decide
+theorem real_rs_v2_counter_exact : counterExactTop real_rs_v2 = true := by decide
+theorem real_rs_v3_counter_exact : counterExactTop real_rs_v3 = true := by decide
+theorem permutation_rs_v0_counter_exact : counterExactTop permutation_rs_v0 = true := by decide
+theorem permutation_rs_v1_counter_exact : counterExactTop permutation_rs_v1 = true := by decide
+theorem permutation_rs_v2_counter_exact : counterExactTop permutation_rs_v2 = true := by decide
+theorem permutation_rs_v3_counter_exact : counterExactTop permutation_rs_v3 = true := by decide
+theorem real_rw_v0_counter_exact : counterExactTop real_rw_v0 = true := by decide
+theorem real_rw_v1_counter_exact : counterExactTop real_rw_v1 = true := by decide
+theorem real_rw_v2_counter_exact : counterExactTop real_rw_v2 = true := by decide
+theorem real_rw_v3_counter_exact : counterExactTop real_rw_v3 = true := by decide
+theorem permutation_rw_v0_counter_exact : counterExactTop permutation_rw_v0 = true := by decide
+theorem permutation_rw_v1_counter_exact : counterExactTop permutation_rw_v1 = true := by decide
+theorem permutation_rw_v2_counter_exact : counterExactTop permutation_rw_v2 = true := by decide
+theorem permutation_rw_v3_counter_exact : counterExactTop permutation_rw_v3 = true := by decide
+theorem real_iwo_v0_counter_exact : counterExactTop real_iwo_v0 = true := by decide
+theorem real_iwo_v1_counter_exact : counterExactTop real_iwo_v1 = true := by decide
+theorem real_iwo_v2_counter_exact : counterExactTop real_iwo_v2 = true := by decide
+theorem real_iwo_v3_counter_exact : counterExactTop real_iwo_v3 = true := by decide
+theorem real_fa_v0_counter_exact : counterExactTop real_fa_v0 = true := by decide
+theorem real_fa_v1_counter_exact : counterExactTop real_fa_v1 = true := by decide
+theorem real_fa_v2_counter_exact : counterExactTop real_fa_v2 = true := by decide
+theorem real_fa_v3_counter_exact : counterExactTop real_fa_v3 = true := by decide
+theorem real_bh_v0_counter_exact : counterExactTop real_bh_v0 = true := by decide
+theorem real_bh_v1_counter_exact : counterExactTop real_bh_v1 = true := by decide
+theorem real_bh_v2_counter_exact : counterExactTop real_bh_v2 = true := by decide
+theorem real_bh_v3_counter_exact : counterExactTop real_bh_v3 = true := by decide
+theorem real_cro_v0_counter_exact : counterExactTop real_cro_v0 = true := by decide
+theorem real_cro_v1_counter_exact : counterExactTop real_cro_v1 = true := by decide
+theorem real_cro_v2_counter_exact : counterExactTop real_cro_v2 = true := by decide
+theorem real_cro_v3_counter_exact : counterExactTop real_cro_v3 = true := by decide
+theorem ant_system_v0_counter_exact : counterExactTop ant_system_v0 = true := by decide
+theorem ant_system_v1_counter_exact : counterExactTop ant_system_v1 = true := by decide
+theorem ant_system_v2_counter_exact : counterExactTop ant_system_v2 = true := by decide
+theorem ant_system_v3_counter_exact : counterExactTop ant_system_v3 = true := by decide
+theorem max_min_ant_system_v0_counter_exact : counterExactTop max_min_ant_system_v0 = true := by decide
+theorem max_min_ant_system_v1_counter_exact : counterExactTop max_min_ant_system_v1 = true := by decide
+theorem max_min_ant_system_v2_counter_exact : counterExactTop max_min_ant_system_v2 = true := by decide
+theorem max_min_ant_system_v3_counter_exact : counterExactTop max_min_ant_system_v3 = true := by decide
 
 end MahfModel.Props.C06.Templates
